@@ -55,6 +55,8 @@ POOL = [
     "d = 2001-001 e = 2001-12-31T01:02:03.000004 f = 01:02Z\n",
     "p = ^x q = N/A r = a+b s = C++ t = +x\n",
     "name = \"NULL\" other = \"true\" third = 'END' fourth = \"Group\"\n",
+    "note = \"pre- and post-launch 2- or 3-axis - x- xxxxxxxxxxxx- end- of the long-word- list -- beta\"\n"
+    "list = (\"- first bullet of a long description that wraps\", \"xxxxxxxxxxxxxxxxxxxxxxxxxxxxxxxxxxxxxxxxxxxxxxxxxx- yyyyyyyyyyyyyyyyyyyyyyyyyyyyyyyyyyyyyyyy\")\n",
     "long = (\"alpha beta gamma delta epsilon zeta eta theta iota kappa\", \"lambda mu nu xi omicron pi rho sigma tau upsilon\", third-word)\n",
 ]
 
